@@ -14,8 +14,9 @@ SPEC = {
         'no part file; atomic_save delegates to AtomicSaver. With the trusted base (POSIX rename/link atomicity, '
         'fsync durability) these give: at every crash point the destination is old or complete-new. The check '
         'does not kill processes and does not decide behaviour of file systems outside the trusted base.'
-        ' O1x: the exclusive create of the part file is outside every handler that closes/unlinks it (a failed create leaves a foreign file alone).'),
-    'decided': ['foreign part file untouched on failed create', 'O1 exclusive creation', 'O2 co-location', 'O3 handle identity', 'O4 flush<fsync<close<publish, only on success',
+        ' O1x: the exclusive create of the part file is outside every handler that closes/unlinks it (a failed create leaves a foreign file alone).'
+        " T17 also: atomic_save hands the caller's options on untouched and overwrite_part defaults to False."),
+    'decided': ['wrapper leaves options untouched', 'foreign part file untouched on failed create', 'O1 exclusive creation', 'O2 co-location', 'O3 handle identity', 'O4 flush<fsync<close<publish, only on success',
                 'O5 single atomic publication; destination untouched otherwise', 'O6 no part file after success'],
     'declined': ['behaviour on file systems without atomic rename / honest fsync', 'caller-supplied absolute part_file names',
                  'the Windows (os.name == "nt") branch: analysed but not armed'],
